@@ -4,7 +4,7 @@ CONSTANTS
  MaxNodes = 4
  MaxDepth = 2
  MaxItems = 4
- ScalarIds = {5,7,9,11,12}
+ ScalarIds = {5,7,11,12}
  KeyIds = {1,2}
  MaxOps = 3
  KeepHist = TRUE
